@@ -265,6 +265,44 @@ def coqchk(pid):
     return ok, axioms, out
 
 
+SHAPE_FILES = ["cache.go", "store.go", "ttl.go", "policy.go", "ring.go"]
+SHAPE_FUNCS = re.compile(r"^(Cache\.(Clear|Close|Del|Get|GetTTL|IterValues|SetWithTTL|Wait|processItems|UpdateMaxCost|RemainingCost)|"
+                         r"defaultPolicy\.(Add|Cap|Clear|Cost|Del|Has|Update|Push|processItems|Close)|"
+                         r"expirationMap\.\w+|lockedMap\.\w+|shardedMap\.\w+|Metrics\.Clear|ringStripe\.Push|ringBuffer\.Push|"
+                         r"sampledLFU\.\w+|tinyLFU\.\w+|NewCache|newDefaultPolicy):")
+
+
+def lockshape():
+    """syntactic skeleton (mutex / channel operations, select, go, calls of machine steps, in source order) of the
+    functions the cache machine models, extracted from /repo's current tree by tools/lockshape; -> (ok, lines, log)"""
+    exe = os.path.join(BUILD, "lockshape")
+    src = os.path.join(ROOT, "tools", "lockshape")
+    if (not os.path.exists(exe)) or os.path.getmtime(exe) < os.path.getmtime(os.path.join(src, "main.go")):
+        rc, out = sh(["go", "build", "-o", exe, "."], cwd=src, env=goenv(), timeout=300)
+        if rc != 0:
+            return False, [], "lockshape does not build: " + out[-800:]
+    rc, out = sh([exe] + SHAPE_FILES, cwd=REPO, timeout=60)
+    if rc != 0:
+        return False, [], out[-800:]
+    return True, [l for l in out.splitlines() if SHAPE_FUNCS.match(l)], ""
+
+
+def lockshape_diff():
+    """compare with the committed expectation lib/lockshape.expected; -> list of differences (empty = same)"""
+    ok, lines, log = lockshape()
+    if not ok:
+        return ["cannot extract the synchronisation skeleton: " + log]
+    exp = [l.rstrip("\n") for l in open(os.path.join(ROOT, "lib", "lockshape.expected")) if l.strip() and not l.startswith("#")]
+    de = {l.split(":", 1)[0]: l for l in exp}
+    dg = {l.split(":", 1)[0]: l for l in lines}
+    diffs = []
+    for k in sorted(set(de) | set(dg)):
+        if de.get(k) != dg.get(k):
+            diffs.append("%s: modelled as [%s], the code now has [%s]" % (
+                k, de.get(k, k + ": <absent>").split(":", 1)[1].strip(), dg.get(k, k + ": <absent>").split(":", 1)[1].strip()))
+    return diffs
+
+
 def build_runner():
     srcs = [os.path.join(COQ, "model.ml"), os.path.join(COQ, "model.mli")] + \
         sorted(os.path.join(ROOT, "ocaml", f) for f in os.listdir(os.path.join(ROOT, "ocaml")) if f.endswith(".ml"))
